@@ -213,7 +213,8 @@ def readColumns (nt aa : Alphabet) (aas mline b1 b2 b3 : List Nat) :
 /-- `esl_gencode_Read(efp, nt_abc, aa_abc, &gcode)` on a buffer; `none` = eslEFORMAT. The new object starts as a copy
     of table 1 (`esl_gencode_Create`), passed as `init`. -/
 def read (nt aa : Alphabet) (init : Gencode) (buf : List Nat) : Option Gencode := do
-  let lines := (splitLines buf []).filter isDataLine
+  -- `nextline()` copies a whole line of the buffer; everything after is C-string code: it sees the line up to its first NUL
+  let lines := ((splitLines buf []).map fun l => l.takeWhile (· ≠ 0)).filter isDataLine
   let l0 ← lines[0]?
   let (start, aas) ← matchLine kwAAs l0
   if aas.length ≠ 64 then none
